@@ -10,7 +10,7 @@ WT=/tmp/wt-main; export CARGO_TARGET_DIR=$WT/target
 [ -d $WT ] || git -C /repo worktree add -q --detach $WT HEAD
 git -C $WT checkout -q --detach "$(git -C /repo rev-parse HEAD)"; git -C $WT checkout -q -- .; git -C $WT clean -fdq -e target
 name=$(basename "$DEMO" .rs)
-cp "$SD/$DEMO" $WT/$CRATE/tests/$name.rs
+mkdir -p $WT/$CRATE/tests; cp "$SD/$DEMO" $WT/$CRATE/tests/$name.rs
 cd $WT
 run_demo() { cargo nextest run -p $CRATE "${FEAT[@]}" --test $name --offline --no-fail-fast 2>&1 | grep -E "Summary|error(\[|:)" | head -3; }
 echo "--- demo WITHOUT the change:"; run_demo
